@@ -1,0 +1,70 @@
+//! Verification hooks: re-exports and thin public wrappers around crate-private
+//! items so an external harness can drive them deterministically.
+
+use std::borrow::Cow;
+use std::collections::BTreeMap;
+
+use tokio::sync::watch;
+use tokio_stream::wrappers::WatchStream;
+
+pub use crate::node::NodeMembership;
+pub use crate::nodes_selector::{start_node_selector, NodeCycler};
+use crate::{
+    Clock,
+    ClusterMember,
+    ClusterStatistics,
+    DatacakeHandle,
+    MembershipChange,
+    NodeId,
+    NodeSelectorHandle,
+    Nodes,
+    RpcNetwork,
+};
+
+/// Public wrapper around `NodeSelectorHandle::set_nodes`.
+pub async fn set_nodes(
+    handle: &NodeSelectorHandle,
+    data_centers: BTreeMap<Cow<'static, str>, Nodes>,
+) {
+    handle.set_nodes(data_centers).await
+}
+
+/// Runs the crate's membership watcher over a caller supplied stream of
+/// membership snapshots, publishing the changes on `membership_changes_tx`.
+pub async fn run_membership_watcher(
+    self_node_id: NodeId,
+    network: RpcNetwork,
+    node_selector: NodeSelectorHandle,
+    statistics: ClusterStatistics,
+    changes: WatchStream<NodeMembership>,
+    membership_changes_tx: watch::Sender<MembershipChange>,
+) {
+    crate::watch_membership_changes(
+        self_node_id,
+        network,
+        node_selector,
+        statistics,
+        changes,
+        membership_changes_tx,
+    )
+    .await
+}
+
+/// Builds a [DatacakeHandle] from its parts without connecting a chitchat cluster.
+pub fn make_handle(
+    me: ClusterMember,
+    clock: Clock,
+    network: RpcNetwork,
+    selector: NodeSelectorHandle,
+    statistics: ClusterStatistics,
+    membership_changes: watch::Receiver<MembershipChange>,
+) -> DatacakeHandle {
+    DatacakeHandle {
+        me: Cow::Owned(me),
+        clock,
+        network,
+        selector,
+        statistics,
+        membership_changes,
+    }
+}
